@@ -14,10 +14,18 @@ _T3 = ('Sidecar contracts (pre/postconditions, frame clauses, contracts on priva
        'within reach of the E1 generator yet (listed under unverified_functions), so everything here is a bounded stand-in, never counted as proved.')
 _TECH_E1 = 'contract-based deductive verification: own AST->VC generator + z3 (structural clauses, unbounded) + run-time contracts vs dense oracles (value clauses, bounded)'
 _TECH_T3 = 'sidecar run-time contracts vs dense oracles (bounded stand-in)'
-for _i in (1, 2, 3, 4, 5, 6, 7, 8, 9, 10, 11, 16, 17):
+for _i in (1, 2, 3, 4, 5, 6, 7, 8, 9, 10, 11, 17):
     CLAIMED['C%02d' % _i] = ('other', _TECH_E1, _E1, _NOTE)
 for _i in (12, 13, 15, 19):
     CLAIMED['C%02d' % _i] = ('other', _TECH_T3, _T3, _NOTE)
+CLAIMED['C16'] = ('other', _TECH_E1,
+                  'Alternating ridge regression: `arr` and its four private helpers are under sidecar contracts whose structural clauses are turned into '
+                  'verification conditions from the real AST on every run and discharged by z3 for ALL orders, basis sizes, ranks, snapshot / target / repeat counts: '
+                  'helper protocol (environments built for the current ranks, contractions pair the legs that belong together - rank with rank, basis index with the '
+                  'physical leg, snapshots jointly), the returned solutions are valid tensor trains of the dimensions of the guess with ranks <= the ranks of the guess '
+                  '(equal whenever the orthonormalised unfolding is not wider than tall), nothing of the guess or the data is written or shared. Bounded (run-time '
+                  'contracts vs dense pinv / lstsq oracles over a seeded family, never counted as proved): the residual never increasing with the sweep count, exact '
+                  'rank preservation on the sampled guesses, and everything about the three MANDy routines (not within reach of the E1 generator; listed under unverified_functions).', _NOTE)
 CLAIMED['C18'] = ('other', _TECH_T3 + '; utils.truncated_svd additionally under an E1 contract (structural clauses, unbounded)',
                   'Sidecar contracts (pre/postconditions, frame clauses, contracts on private helpers installed into the module namespace) '
                   'evaluated at run time against independent dense oracles over an enumerated+seeded family - a bounded stand-in, never counted as proved. '
